@@ -27,6 +27,17 @@ class Tracer:
         self.prim_sites = []      # (function, call node, tokens) for every primitive I/O call traced
 
     # ------------------------------------------------------------------ paths
+    def _scratch_record(self, rec):
+        """rec is a repository record that did not exist when the format descriptions were frozen (spec/names.json)."""
+        if not rec or not rec.startswith("OP2Utility"):
+            return False
+        if not hasattr(self, "_frozen_records"):
+            import json
+            import os
+            with open(os.path.join(os.path.dirname(os.path.dirname(os.path.abspath(__file__))), "spec", "names.json")) as fh:
+                self._frozen_records = set(json.load(fh)["records"])
+        return rec not in self._frozen_records and rec not in self.roots
+
     def var_types(self, fn):
         vt = {}
         for nd in fn.nodes:
@@ -51,6 +62,9 @@ class Tracer:
         if h == "this":
             return "" if fn.cls in self.roots else "this"
         if h == "mem":
+            if t[1][0] == "var" and t[1] not in env and self._scratch_record(vt.get(t[1][2])):
+                # a field of a local whose type is no format record (a struct that bundles a helper's results): a plain local
+                return "~%s_%s" % (t[1][1] or "tmp", t[2])
             p = self.npath(fn, t[1], env, vt)
             return t[2] if p == "" else p + "." + t[2]
         if h == "idx":
